@@ -285,6 +285,8 @@ def parsePayloadCell (v : VersionIf) (kind : CellKind) (page : Buf) (index start
             buf := buf.append c
           if (buf.size : Int) ≠ ovBytes then (.error .parseError : Py Buf) else pure buf
         else pure Buf.empty)
+      -- digest of an overflowing cell covers the overflow content too (fix: commit)
+      let digest := if hasOv then digest ++ ovBuf.toList else digest
       let rec_ ← parseRecord page payloadOffset p b ovBuf
       pure { kind, index, start, end_ := endOff, byteSize, leftChild, rowid,
              payloadSize := some p, payloadOffset := some payloadOffset, bytesOnFirst := some b,
